@@ -98,14 +98,8 @@ Qed.
 
 (* ------------------------------------------------------------------ patch.py *)
 
-(* what end_patch makes of a stored old value *)
-Definition undo (old : value) : option value := match old with VNone => None | v => Some v end.
-
-Lemma undo_old_of : forall o, o <> Some VNone -> undo (old_of o) = o.
-Proof. intros [[| | |]|] H; cbn; auto; congruence. Qed.
-
 Definition tok_of (s : st) (t : token) : Prop :=
-  match t with None => True | Some (k, old) => old = old_of (get k s) end.
+  match t with None => True | Some (k, old) => old = get k s end.
 
 Definition tkey (t : token) : list key := match t with Some (k, _) => [k] | None => [] end.
 Definition tkeys (ts : list token) : list key := flat_map tkey ts.
@@ -116,7 +110,7 @@ Proof. intros p s s' H; unfold target_ok. inversion H; congruence. Qed.
 Lemma begin_patch_spec : forall p nv s s' t,
   begin_patch p nv s = (s', t) ->
   frame [pkey p] s s' /\ tok_of s t /\ incl (tkey t) [pkey p] /\
-  (target_ok p s = true -> t = Some (pkey p, old_of (get (pkey p) s)) /\ get (pkey p) s' = Some nv) /\
+  (target_ok p s = true -> t = Some (pkey p, get (pkey p) s) /\ get (pkey p) s' = Some nv) /\
   (target_ok p s = false -> t = None /\ s' = s).
 Proof.
   intros p nv s s' t H; unfold begin_patch in H.
@@ -136,7 +130,7 @@ Proof. intros; eapply frame_weaken; [|eassumption]. intros x; right; auto. Qed.
 Lemma patch_enter_spec : forall ps base s s' ts,
   patch_enter ps base s = (s', ts) -> NoDup (map pkey ps) ->
   frame (map pkey ps) s s' /\ Forall (tok_of s) ts /\ incl (tkeys ts) (map pkey ps) /\ NoDup (tkeys ts) /\
-  (forall p, In p ps -> target_ok p s = true -> In (Some (pkey p, old_of (get (pkey p) s))) ts).
+  (forall p, In p ps -> target_ok p s = true -> In (Some (pkey p, get (pkey p) s)) ts).
 Proof.
   induction ps as [|p r IH]; intros base s s' ts H ND; cbn in H.
   - inversion H; subst. repeat split; auto using frame_refl; try constructor. intros x [].
@@ -151,7 +145,7 @@ Proof.
     { assert (X : Forall (fun t => incl (tkey t) (map pkey r)) ts2).
       { apply Forall_forall. intros t0 Ht x Hx. apply I2. unfold tkeys. apply in_flat_map. exists t0; auto. }
       clear - T2 X Hget. induction T2; constructor; inversion X; subst; auto.
-      destruct x as [[k old]|]; cbn in *; auto. rewrite H. f_equal. apply Hget. apply H2. left; reflexivity. }
+      destruct x as [[k old]|]; cbn in *; auto. rewrite H. apply Hget. apply H2. left; reflexivity. }
     split.
     { split.
       - intros k N. destruct F2 as [F2 _]. rewrite F2 by (intros X; apply N; right; exact X).
@@ -175,49 +169,37 @@ Qed.
 
 (* ------------------------------------------------------------------ leaving a patch *)
 
-Definition tok_safe (s : st) (t : token) : Prop :=
-  match t with None => True | Some (k, old) => old <> VNone \/ get k s <> None end.
-
+(* end_patch cannot raise: a missing original is deleted if (still) present, anything else is set *)
 Lemma end_patch_some : forall k old s,
-  old <> VNone \/ get k s <> None ->
-  exists s', end_patch (Some (k, old)) s = Some s' /\ get k s' = undo old /\ frame [k] s s'.
+  exists s', end_patch (Some (k, old)) s = Some s' /\ get k s' = old /\ frame [k] s s'.
 Proof.
-  intros k old s H. destruct old; cbn.
-  - destruct (get k s) eqn:G.
-    + eexists; split; [reflexivity|]. split; [apply get_del_eq|apply frame_del].
-    + destruct H as [H|H]; congruence.
+  intros k [v|] s; cbn.
   - eexists; split; [reflexivity|]. split; [apply get_set_eq|apply frame_set].
-  - eexists; split; [reflexivity|]. split; [apply get_set_eq|apply frame_set].
-  - eexists; split; [reflexivity|]. split; [apply get_set_eq|apply frame_set].
+  - eexists; split; [reflexivity|]. split; [apply get_del_eq|apply frame_del].
 Qed.
+Lemma end_patch_total : forall t s, exists s', end_patch t s = Some s'.
+Proof. intros [[k [v|]]|] s; cbn; eexists; reflexivity. Qed.
 
 Lemma end_patch_frame : forall t s s', end_patch t s = Some s' -> frame (tkey t) s s'.
 Proof.
-  intros [[k old]|] s s' H; cbn in *.
-  - destruct old; try (inversion H; subst; apply frame_set).
-    destruct (get k s); inversion H; subst. apply frame_del.
-  - inversion H; subst. apply frame_refl.
+  intros [[k [v|]]|] s s' H; cbn in *; inversion H; subst.
+  - apply frame_set.
+  - apply frame_del.
+  - apply frame_refl.
 Qed.
 
 Lemma restore_all_spec : forall ts s,
-  NoDup (tkeys ts) -> Forall (tok_safe s) ts ->
+  NoDup (tkeys ts) ->
   exists s', restore_all ts s = (s', true) /\ frame (tkeys ts) s s' /\
-             (forall k old, In (Some (k, old)) ts -> get k s' = undo old).
+             (forall k old, In (Some (k, old)) ts -> get k s' = old).
 Proof.
-  induction ts as [|t r IH]; intros s ND SF; cbn.
+  induction ts as [|t r IH]; intros s ND; cbn [restore_all].
   - exists s. split; auto. split; [apply frame_refl|]. intros k old [].
-  - inversion SF as [|? ? St Sr]; subst. destruct t as [[k old]|].
+  - destruct t as [[k old]|].
     + cbn in ND. inversion ND as [|? ? NI ND']; subst.
-      destruct (end_patch_some k old s St) as (s1 & E1 & G1 & F1).
+      destruct (end_patch_some k old s) as (s1 & E1 & G1 & F1).
       rewrite E1.
-      assert (Sr' : Forall (tok_safe s1) r).
-      { apply Forall_forall. intros t Ht. rewrite Forall_forall in Sr. specialize (Sr t Ht).
-        destruct t as [[k' old']|]; cbn in *; auto.
-        destruct Sr as [Sr|Sr]; auto. right.
-        assert (k' <> k).
-        { intros ->. apply NI. unfold tkeys. apply in_flat_map. eexists; split; [exact Ht|left; reflexivity]. }
-        destruct F1 as [F1 _]. rewrite F1; auto. intros [<-|[]]; auto. }
-      destruct (IH s1 ND' Sr') as (s' & R & F & G).
+      destruct (IH s1 ND') as (s' & R & F & G).
       exists s'. split; [exact R|]. split.
       * eapply frame_trans.
         -- eapply frame_weaken; [|exact F1]. intros x [<-|[]]; left; reflexivity.
@@ -225,7 +207,7 @@ Proof.
       * intros k' old' [E|Hin].
         -- inversion E; subst. destruct F as [F _]. rewrite F; auto.
         -- eapply G; eauto.
-    + cbn in ND. destruct (IH s ND Sr) as (s' & R & F & G).
+    + cbn in ND. destruct (IH s ND) as (s' & R & F & G). cbn [end_patch].
       exists s'. split; [exact R|]. split; [exact F|].
       intros k' old' [E|Hin]; [discriminate|eauto].
 Qed.
@@ -244,20 +226,19 @@ Lemma patch_exit_rev : forall ts s, patch_exit ts s = restore_all (rev ts) s.
 Proof. reflexivity. Qed.
 
 Lemma patch_exit_spec : forall ts s,
-  NoDup (tkeys ts) -> Forall (tok_safe s) ts ->
+  NoDup (tkeys ts) ->
   exists s', patch_exit ts s = (s', true) /\ frame (tkeys ts) s s' /\
-             (forall k old, In (Some (k, old)) ts -> get k s' = undo old).
+             (forall k old, In (Some (k, old)) ts -> get k s' = old).
 Proof.
-  intros ts s ND SF. rewrite patch_exit_rev.
+  intros ts s ND. rewrite patch_exit_rev.
   destruct (restore_all_spec (rev ts) s) as (s' & R & F & G).
   - rewrite tkeys_rev. apply NoDup_rev; exact ND.
-  - apply Forall_rev; exact SF.
   - exists s'. split; [exact R|]. split.
     + eapply frame_weaken; [|exact F]. rewrite tkeys_rev. intros x Hx. apply in_rev; exact Hx.
     + intros k old Hin. apply G. apply -> in_rev; exact Hin.
 Qed.
 
-(* whatever happens, leaving a patch only touches the keys of its tokens *)
+(* leaving a patch only touches the keys of its tokens *)
 Lemma restore_all_frame : forall ts s, frame (tkeys ts) s (fst (restore_all ts s)).
 Proof.
   induction ts as [|t r IH]; intros s; cbn.
@@ -273,16 +254,15 @@ Proof.
   rewrite tkeys_rev. intros x Hx; apply in_rev; exact Hx.
 Qed.
 
-(* a patch(...) around anything: if every stored None still has an attribute to delete, all
-   effective targets are back to undo(old) afterwards *)
+(* a patch(...) around ANYTHING: all effective targets hold what they held before, afterwards *)
 Lemma patch_bracket : forall ps base s s1 ts s2,
-  patch_enter ps base s = (s1, ts) -> NoDup (map pkey ps) -> Forall (tok_safe s2) ts ->
+  patch_enter ps base s = (s1, ts) -> NoDup (map pkey ps) ->
   exists s3, patch_exit ts s2 = (s3, true) /\ frame (map pkey ps) s2 s3 /\
-    (forall p, In p ps -> target_ok p s = true -> get (pkey p) s3 = undo (old_of (get (pkey p) s))).
+    (forall p, In p ps -> target_ok p s = true -> get (pkey p) s3 = get (pkey p) s).
 Proof.
-  intros ps base s s1 ts s2 E ND SF.
+  intros ps base s s1 ts s2 E ND.
   destruct (patch_enter_spec _ _ _ _ _ E ND) as (F & T & I & NDt & IN).
-  destruct (patch_exit_spec ts s2 NDt SF) as (s3 & X & F3 & G3).
+  destruct (patch_exit_spec ts s2 NDt) as (s3 & X & F3 & G3).
   exists s3. split; [exact X|]. split.
   - eapply frame_weaken; [exact I|exact F3].
   - intros p Hp OK. eapply G3. apply IN; auto.
